@@ -286,6 +286,80 @@ Definition final_sids (rej : reject) (t : tree) (evs : list event) : list N :=
 Definition prop_c11_ev_b (rej : reject) (t : tree) (evs : list event) (r : rec) (files : list (option (list N))) : bool :=
   files_okb (ids_of (expected_ev rej t evs r)) files.
 
+(* ---- several file sinks on ONE file, sinks that leave the configuration, a second Logger object ----
+   A file sink owns a QFile object (its own descriptor, opened for appending, its own write buffer).
+   Nothing keeps two sinks from being created for the same file NAME: a sink replaced at run time by a
+   new one for the same file (the new one appended, then the old one removed), a short-lived second
+   Logger that logs to the same file.  The file then holds what EVERY QFile ever opened on it has handed
+   to the kernel: one stream of records per QFile, interleaved in the order of the kernel writes.
+   [fmap] says which file a sink (by identity) logs to.  A sink that leaves the configuration (remove,
+   clearSinks, its pipeline removed) is destroyed: FileSink::~FileSink closes the QFile, which flushes
+   it; its stream stays in the file.  What the property demands of a file that still belongs to a file
+   sink of the logger when the process dies: every stream complete - each record once per sink that
+   wrote it, the records of one sink in their order. *)
+Definition fmap := N -> N.
+Definition sinks_of (t : tree) : list sink := map fst (gsinks t).
+Definition has_sid (l : list sink) (i : N) : bool := existsb (fun s => sid s =? i) l.
+(* the sinks of [t] that are no longer in [t'] *)
+Definition dropped (t t' : tree) : list sink :=
+  filter (fun s => negb (has_sid (sinks_of t') (sid s))) (sinks_of t).
+(* [WScratch s msgs]: a second Logger object holding the single file sink [s] logs [msgs] and is destroyed *)
+Inductive wevent := WEv (e : event) | WScratch (s : sink) (msgs : list msg).
+(* the logger's handler tree, and the sinks that were destroyed so far (closed: flushed) *)
+Definition wstate := (tree * list sink)%type.
+Definition wstep cfg pol rej (st : wstate) (e : wevent) : wstate :=
+  match e with
+  | WEv e => let t' := step cfg pol rej (fst st) e in (t', snd st ++ map qflush (dropped (fst st) t'))
+  | WScratch s msgs => (fst st, snd st ++ [qflush (fold_left (write cfg pol rej) msgs s)])
+  end.
+Definition wrun cfg pol rej (t : tree) (evs : list wevent) : wstate := fold_left (wstep cfg pol rej) evs (t, []).
+Definition wfatal (r : rec) : wevent := WEv (EMsg (Fatal, r)).
+Definition wrun_fatal cfg pol rej (t : tree) (evs : list wevent) (r : rec) : wstate :=
+  wrun cfg pol rej t (evs ++ [wfatal r]).
+(* THE SPECIFICATION: the same without any buffering (no configuration, no policy, no flush in it) *)
+Definition swstep (rej : reject) (st : wstate) (e : wevent) : wstate :=
+  match e with
+  | WEv e => let t' := sstep rej (fst st) e in (t', snd st ++ dropped (fst st) t')
+  | WScratch s msgs => (fst st, snd st ++ [fold_left (swrite rej) msgs (settle s)])
+  end.
+Definition wspec (rej : reject) (t : tree) (evs : list wevent) : wstate := fold_left (swstep rej) evs (tmap settle t, []).
+Definition expected_w (rej : reject) (t : tree) (evs : list wevent) (r : rec) : wstate := wspec rej t (evs ++ [wfatal r]).
+(* abort()/SIGKILL: the streams file [f] is made of (destroyed sinks first, then those of the configuration) *)
+Definition all_sinks (st : wstate) : list sink := snd st ++ sinks_of (fst st).
+Definition on_file (fm : fmap) (f : N) (s : sink) : bool := (fm (sid s) =? f) && negb (broken s).
+Definition streams (fm : fmap) (f : N) (st : wstate) : list (list rec) := map disk (filter (on_file fm f) (all_sinks st)).
+(* the files that belong to a (healthy) file sink of the configuration *)
+Definition live_files (fm : fmap) (st : wstate) : list N :=
+  map (fun s => fm (sid s)) (filter (fun s => negb (broken s)) (sinks_of (fst st))).
+(* boolean oracle on the record ids found in a file, in file order: a file written by ONE QFile must hold
+   exactly its stream; a file written by several must hold the same records the same number of times, and
+   every stream as a subsequence *)
+Fixpoint count_id (x : N) (l : list N) : N :=
+  match l with [] => 0 | y :: r => (if x =? y then 1 else 0) + count_id x r end.
+Definition ms_eqb (a b : list N) : bool :=
+  Nat.eqb (length a) (length b) && forallb (fun x => count_id x a =? count_id x b) a.
+Fixpoint subseq_b (l p : list N) : bool :=
+  match l with
+  | [] => match p with [] => true | _ => false end
+  | y :: l' => match p with
+               | [] => true
+               | x :: p' => if x =? y then subseq_b l' p' else subseq_b l' p
+               end
+  end.
+Definition stream_okb (parts : list (list N)) (file : list N) : bool :=
+  match parts with
+  | [p] => ids_eqb p file
+  | _ => ms_eqb (concat parts) file && forallb (subseq_b file) parts
+  end.
+Definition stream_ids (fm : fmap) (f : N) (st : wstate) : list (list N) := map (map rid) (streams fm f st).
+Definition prop_c11_w_b (fm : fmap) (rej : reject) (t : tree) (evs : list wevent) (r : rec)
+                        (found : N -> option (list N)) : bool :=
+  let st := expected_w rej t evs r in
+  forallb (fun f => match found f with
+                    | Some ids => stream_okb (stream_ids fm f st) ids
+                    | None => false
+                    end) (live_files fm st).
+
 (* ---- helpers for the driver ---- *)
 Definition fresh (id : N) (pre : bool) (brk : bool) : sink :=
   {| sid := id; presize := pre; broken := brk; disk := []; buf := [] |}.
